@@ -918,11 +918,11 @@ func c13Sig(sp C13Spec, ob *c13Obs, sim *c13Sim, expRender []c13Ev, copyCol bool
 		if !ok {
 			return what + ":unregistered-callback"
 		}
-		if r.Owner == "column" && (r.H > 0 || hasHandle) {
-			return "column-handle-taken-earlier-is-not-the-live-column"
-		}
 		if equalInSlot[e.CB] {
 			return what + "-invocation-of-a-callback-equal-to-another-in-its-slot"
+		}
+		if r.Owner == "column" && (r.H > 0 || hasHandle) {
+			return "column-handle-taken-earlier-is-not-the-live-column"
 		}
 		if hasFail {
 			return what + "-invocation-in-a-history-with-a-callback-that-returns-an-error"
@@ -1847,9 +1847,13 @@ func init() {
 			"interleaved with RegisterPropertyCallback of recording callbacks, then 1-3 render passes (t.InvokeRenderCallbacks() or csv.Render); " +
 			"all 48 (owner kind x time x target) registrations singly upon every owner instance (table, columns 0..n, every row incl. header and separator, every cell) " +
 			"of 16 table shapes up to 2x2 (+header, empty header, separator, zero-cell row, detached build, row extended after attach), registered as soon as the owner exists and after the table is complete; " +
-			"pairs of registrations (sampled in quick, all 2,304 ordered pairs per shape in thorough); seeded random histories of up to 12 operations with up to 4 registrations; " +
-			"a case is non-trivial when at least one invocation is expected or a registration must be refused; distinct = distinct (history, passes, render path)",
-		Exhaustive: "all 48 owner-kind x time x target combinations x every owner instance x {earliest, last} registration point on 16 shapes",
+			"pairs of registrations (sampled in quick, all 2,304 ordered pairs per shape in thorough); " +
+			"callback objects of three kinds (pointer with own contents, pointer with contents equal to every other of its kind, plain value), two equal callbacks and the same object twice in one slot (also through the Row itself/row and Cell itself/cell aliases) on every combination that can fire; " +
+			"column handles taken while the table is narrow, the table widened to 10+ columns in four ways (wide row, wide header, cells added late to an attached row, wide detached row), column callbacks registered through the old handle before and after the growth and through a fresh handle, identities and properties compared through old handles too; " +
+			"callbacks that return an error: every firing single registration, and every failing pre-cell cell-targeted registration paired, in both orders, with every registration that fires for the same cell / its row / its column / the table; " +
+			"seeded random histories of up to 12 operations with up to 4 registrations (kinds, failures, re-registered objects, handles, rows past the column capacity); " +
+			"a case is non-trivial when at least one invocation is expected or a registration must be refused; distinct = distinct spec",
+		Exhaustive: "all 48 owner-kind x time x target combinations x every owner instance x {earliest, last} registration point on 16 shapes; equal-callback pairs on every firing combination x shape; handle scenarios 4 widening methods x {10,12} columns x columns 0..2 x 5 column combinations x 4 registration points; failing pre-cell x 24 partner registrations x 2 orders on first and last cell of every shape",
 		Gen:        c13Gen,
 		Run:        c13Run,
 		Shrink:     c13Shrink,
